@@ -8,6 +8,7 @@ mod util;
 mod e_merge;
 mod e_lcov;
 mod e_markers;
+mod e_gcno;
 mod e_gcov;
 mod e_rewrite;
 mod e_jacoco;
@@ -27,6 +28,7 @@ fn dispatch(engine: &str, case: &Value) -> Value {
         "pathfacts" => e_rewrite::run_facts(case),
         "gcov_text" => e_gcov::run_text(case),
         "gcov_json" => e_gcov::run_json(case),
+        "gcno" => e_gcno::run(case),
         "markers" => e_markers::run(case),
         "parse" => e_lcov::run_parse(case),
         "lcov_rt" => e_lcov::run_rt(case),
